@@ -1955,7 +1955,8 @@ def _first_rejected_leaf(d, val):
     try:
         d._traverse(val, check)
     except Exception:
-        pass
+        if not found:
+            found.append('container-unified-away')      # the traversal itself broke on a container where the type has another shape
     return found[0] if found else '?'
 
 
@@ -2014,7 +2015,9 @@ def run_lit(case):
         classes.add('imputed')
         try:
             hailgen.typechecks(d, val)
-        except TypeError as ex:
+        except (TypeError, AttributeError, KeyError) as ex:
+            # (the deep traversal itself can trip over a value of the wrong shape: .items() on a list where the imputed type has
+            #  a dict -- still "the imputed type does not accept the value")
             leaf = _first_rejected_leaf(d, val)
             v.fail(f'impute-not-accepting:{leaf}', CL_LIT,
                    f'impute_type gives {d} for {val!r} (generated as {t}) but that type does not accept the value: {ex}')
